@@ -96,6 +96,40 @@ func runC18(r *Run) {
 			r.bad("C18.R5", "exporter|none", "-", "exporters found", "no exporter functions found")
 		}
 	}
+	// decode targets are fresh per element everywhere in the repository's keepers
+	{
+		n, bad := 0, []string{}
+		for _, fv := range w.allViews() {
+			if !strings.HasPrefix(fv.ID(), "x/") || strings.HasPrefix(fv.ID(), "x/evm") || strings.HasSuffix(w.relFile(fv.Decl.Pos()), ".pb.go") {
+				continue
+			}
+			for _, c := range fv.CallsNamed("MustUnmarshal", "Unmarshal") {
+				if len(c.Args) != 2 {
+					continue
+				}
+				lp := fv.innermostLoop(c)
+				if lp == nil {
+					continue
+				}
+				e := stripParens(c.Args[1])
+				if u, ok := e.(*ast.UnaryExpr); ok {
+					e = u.X
+				}
+				o := fv.objOf(e)
+				if o == nil {
+					continue
+				}
+				if _, isStruct := o.Type().Underlying().(*types.Struct); !isStruct {
+					continue
+				}
+				n++
+				if !(o.Pos() > lp.Pos() && o.Pos() < lp.End()) {
+					bad = append(bad, fv.ID()+" ("+o.Name()+" at "+fv.pos(c)+")")
+				}
+			}
+		}
+		r.check(len(bad) == 0 && n > 10, "C18.R5", "decode-target-fresh", "-", "records are decoded into a fresh value per element (Unmarshal does not reset its target)", "decoded into a variable that outlives the iteration: "+strings.Join(bad, ", "))
+	}
 	if vv := w.View("x/operator/types", "GenesisState.ValidateOptedStates"); vv == nil {
 		r.bad("C18.R6", "validate|opted-heights|anchor", "-", "anchor", "ValidateOptedStates not found")
 	} else {
